@@ -124,7 +124,7 @@ def corpus(tier, seed):
     out = []
     for lf in LEAVES:
         out.append(('leaf:' + lf[:24], lf))
-    per = 1 if tier == 'quick' else 6
+    per = 1 if tier == 'quick' else 3
     for sk in SKELETONS:
         if holes(sk) == 0:
             out.append(('sk:' + sk, sk))
